@@ -60,6 +60,7 @@ type driver struct {
 	mu     sync.Mutex
 	pts    map[string]int64
 	replay bool
+	bin    string // private copy of the running binary, used for all children
 }
 
 func (d *driver) child(logPath string, env []string, args ...string) ([]byte, int, bool) {
@@ -68,7 +69,7 @@ func (d *driver) child(logPath string, env []string, args ...string) ([]byte, in
 		f.Close()
 	}
 	env = append([]string{"GOMAXPROCS=2"}, env...)
-	return vf.RunWorkerOnce(false, "c07", args, env, logPath, childTimeout)
+	return vf.RunOnce(d.bin, append([]string{"worker", "c07"}, args...), env, logPath, childTimeout)
 }
 
 func parseJSON[T any](out []byte) (T, bool) {
@@ -222,6 +223,9 @@ func (d *driver) judge(sr *shapeRun, store, scratch, logp string) (key, what str
 		hits++
 	}
 	res, jok := parseJSON[Resolved](out)
+	if code == 2 && strings.Contains(Tail(logp, 300), "unknown worker") {
+		return "inconclusive", "child binary has no c07 worker", hits
+	}
 	if code != 0 || !jok {
 		return "open-dies", fmt.Sprintf("the process opening the store exited with code %d: %s", code, Tail(logp, 500)), hits
 	}
@@ -481,6 +485,13 @@ func run(c *vf.Ctx) {
 	root := vf.TempDir("c07")
 	defer os.RemoveAll(root)
 	d := &driver{c: c, root: root, pts: map[string]int64{}}
+	bin, err := PrivateBin(root)
+	if err != nil {
+		c.Logf("cannot copy own binary: %v", err)
+		c.Inconclusive("cannot copy own binary")
+		return
+	}
+	d.bin = bin
 
 	if c.ReplayFile != "" {
 		var rp struct {
